@@ -129,4 +129,16 @@ PROPERTIES = {
             {"name": "c08_bits_san", "src": "c08_packed_bits.cpp", "mode": "asan", "flags": ['-DVERIF_TARGET_NAME="c08_bits_san"', "-DVERIF_STRIDE=4"], "subtargets": [], "threads": 8, "subset": True},
         ],
     },
+    "C12": {
+        "level": "exploration",
+        "assumptions": [
+            "pixel types are taken from each format's *_write_support table; 0-sized images are outside the statement",
+            "the PNM and TIFF writers do not compile for step (flipped / sub-sampled / transposed) views of bit-aligned pixels: only whole images and sub-views are generated for gray1/2/4 in those formats",
+            "JPEG: quality 100; bounds frozen after calibration on the pinned tree: constant images 1 level, gray 6, rgb/cmyk gradients 48, rgb/cmyk noise unbounded by chroma subsampling (only dimensions are meaningful there)",
+            "known finding K12-tiff-alpha: for alpha-carrying TIFF pixels in strips / interior tiles the expected value is premultiply(original)",
+            "a FILE* handed to GIL is adopted (closed) by the device, as file_stream_device documents by construction",
+        ],
+        "targets": [{"name": "c12_rt_g%d" % g, "src": "c12_io_roundtrip.cpp", "mode": "asan", "rapidcheck": True, "io": True,
+                     "flags": ["-DC12_GROUP=%d" % g, "-DC12_NGROUPS=4", '-DVERIF_TARGET_NAME="c12_rt_g%d"' % g], "subtargets": ["rt"], "group": g} for g in range(4)],
+    },
 }
